@@ -1,6 +1,6 @@
 (* Shared definitions for the executable models: bytes, little-endian
    integers, N-indexed list helpers.  No proofs of properties here. *)
-From stdpp Require Import gmap list.
+From stdpp Require Import gmap list mapset.
 From Coq Require Import NArith ZArith Lia Strings.Byte.
 Open Scope N_scope.
 
@@ -43,6 +43,9 @@ Definition get32 := get 4.
 (* overwrite l at offset off with d (l long enough) *)
 Definition splice (l : bytes) (off : N) (d : bytes) : bytes :=
   takeN off l ++ d ++ drop (N.to_nat off + length d) l.
+
+(* insertion into a finite set (stdpp's union with a singleton walks the whole set when run) *)
+Definition gs_add `{Countable K} (x : K) (s : gset K) : gset K := Mapset (<[x := ()]> (mapset_car s)).
 
 (* handles and names are byte strings *)
 Definition name := bytes.
